@@ -192,10 +192,12 @@ def run(tier, seed, ck: Check):
     projects = (0, 1, 2, 3) if big else (0, 2, 3)
     jobs = []
     for n in projects:
-        names = sorted(project(n))
+        names = sorted(k for k in project(n) if k.endswith(".f90"))     # the source files the discovery enumerates (include files are not among them)
         perms = list(itertools.permutations(names))
         if not big:
             perms = perms[:: max(1, len(perms) // 8)] + [tuple(reversed(names))]
+        elif len(perms) > 120:
+            perms = perms[:: len(perms) // 120] + [tuple(reversed(names))]
         for p in perms:
             jobs.append(("perm", n, (n, list(p))))
     res = pool.pmap(run_perm, [j[2] for j in jobs], chunksize=1)
